@@ -11,6 +11,7 @@ import (
 	"sync"
 	"sync/atomic"
 	"unicode/utf8"
+	"verif/harness/gen"
 
 	"golang.org/x/mod/sumdb/tlog"
 
@@ -291,6 +292,33 @@ func runC09(c *mon.Ctx) {
 						return out, nil
 					}))
 					if len(asked) > 0 {
+						// a sloppy store that answers with more (or fewer) hashes than it was asked for, the
+						// wanted ones not in front: the reply has the wrong length and must not be used
+						for _, delta := range []int{1, -1, 3} {
+							sloppy := tlog.HashReaderFunc(func(ix []int64) ([]tlog.Hash, error) {
+								k := len(ix) + delta
+								if k < 0 {
+									k = 0
+								}
+								out := make([]tlog.Hash, k)
+								for i := range out {
+									out[i] = st[(int(ix[0])+7*i+1)%len(st)] // some other stored hashes
+								}
+								return out, nil
+							})
+							hs, err := tlog.StoredHashes(int64(m), recs[m], sloppy)
+							c.Eval(1)
+							if err == nil {
+								lo := refmerkle.StoredCount(int64(m))
+								for i, h := range hs {
+									if lo+int64(i) < int64(len(st)) && h != st[lo+int64(i)] {
+										c.Violation("stored-hashes-built-from-a-reply-of-the-wrong-length", id, map[string]any{"record": m, "reply-length-minus-request": delta})
+										break
+									}
+								}
+							}
+						}
+						c.Class("read-fault:reply-of-wrong-length")
 						bad = asked[r.IntN(len(asked))]
 						hs, err := tlog.StoredHashes(int64(m), recs[m], faultyReader(st, bad))
 						if err == nil {
@@ -488,8 +516,40 @@ func runC09(c *mon.Ctx) {
 			if err != nil || json.Unmarshal(js, &h3) != nil || h3 != h {
 				c.Violation("hash-json-roundtrip", id, string(js))
 			}
+			// mutated JSON text of a hash: whatever is accepted must be the quoted, padded base64 of the hash it yields
+			{
+				mj := []byte(mutateBytes(r, js))
+				switch r.IntN(4) {
+				case 0: // only the padding character differs
+					mj = append([]byte(nil), js...)
+					mj[len(mj)-2] = "A/ -=+x"[r.IntN(7)]
+				case 1: // only the last significant character differs
+					mj = append([]byte(nil), js...)
+					mj[len(mj)-3] = "ABCDEFGHIJKLMNOPQRSTUVWXYZabcdefghijklmnopqrstuvwxyz0123456789+/=-"[r.IntN(66)]
+				}
+				var hm tlog.Hash
+				if json.Unmarshal(mj, &hm) == nil && !bytes.Equal(mj, []byte("null")) {
+					var str string
+					dec, derr := []byte(nil), error(nil)
+					if json.Unmarshal(mj, &str) != nil {
+						derr = fmt.Errorf("not a JSON string")
+					} else {
+						dec, derr = base64.StdEncoding.DecodeString(str)
+					}
+					if derr != nil || !bytes.Equal(dec, hm[:]) {
+						c.Violation("hash-json-accepts-text-that-is-not-its-base64", id, map[string]any{"text": mon.Q(mj), "hash": hm.String()})
+					}
+					c.Class("codec:hash-json-mutant-accepted")
+				} else {
+					c.Class("codec:hash-json-mutant-rejected")
+				}
+			}
 			// mutated tree text: accepted only if it re-formats to itself (up to ignored extra lines)
 			mt := []byte(mutateBytes(r, txt))
+			if r.IntN(6) == 0 {
+				// the first line is the whole of "go.sum database tree", not a prefix of it
+				mt = append([]byte("go.sum database tree"+gen.Pick(r, []string{" v2", "2", "s", " ", "\t", ".", "-v1"})), txt[len("go.sum database tree"):]...)
+			}
 			if t2, err := tlog.ParseTree(mt); err == nil {
 				// what was accepted must mean what it says: exact first line, canonical decimal size,
 				// and a third line that is base64 for the returned hash (the decoder's leniency about
